@@ -133,6 +133,11 @@ impl<T> RawTable<T> {
         // Calculate the minimal number of elements that we need to reserve
         // space for.
         let mut need = self.table.len();
+        // The old table may have been emptied without being reclaimed (e.g., by `erase`).
+        // Reclaim it now, so that a table shrunk to exactly fit never co-exists with leftovers.
+        if self.leftovers.as_ref().map_or(false, |lo| lo.table.len() == 0) {
+            let _ = self.leftovers.take();
+        }
         // We need to make sure that we never have to resize while there
         // are still leftovers.
         if let Some(ref lo) = self.leftovers {
